@@ -311,7 +311,7 @@ class Fn:
             v = self.fresh()
             pre.append((v, m))
             return 'negb %s' % v, 'bool', False
-        if isinstance(op, (ast.Lt, ast.Gt)):
+        if isinstance(op, (ast.Lt, ast.Gt, ast.LtE, ast.GtE)):
             a, aty = self.cx(l, env, pre)
             if aty == 'statuslen':
                 if isinstance(op, ast.Gt) and isinstance(r, ast.Constant) and r.value == 0 and not isinstance(r.value, bool):
@@ -320,9 +320,10 @@ class Fn:
             b, bty = self.cx(r, env, pre)
             if aty != 'json' or bty != 'json':
                 raise Unsupported(e, 'ordering of a %s and a %s' % (aty, bty))
-            if isinstance(op, ast.Gt):
+            if isinstance(op, (ast.Gt, ast.GtE)):
                 a, b = b, a
-            return 'py_lt %s %s' % (paren(a), paren(b)), 'bool', True
+            prim = 'py_lt' if isinstance(op, (ast.Lt, ast.Gt)) else 'py_le'
+            return '%s %s %s' % (prim, paren(a), paren(b)), 'bool', True
         raise Unsupported(e, 'comparison operator %s' % type(op).__name__)
 
     def call(self, e, env, pre):
